@@ -31,8 +31,43 @@ def fresh_copy():
 
 def run_check(pid):
     env = dict(os.environ, SV_REPO=S + "/repo", SV_TARGET_DIR=VERIF + "/.cache/target-mut", SV_EVIDENCE_DIR=S + "/evidence")
-    r = subprocess.run([VERIF + "/sv", "check", pid], cwd=VERIF, env=env, stdout=subprocess.PIPE, stderr=subprocess.STDOUT, text=True)
+    r = subprocess.run([VERIF + "/sv", "check", pid, "--tier", "quick"], cwd=VERIF, env=env, stdout=subprocess.PIPE, stderr=subprocess.STDOUT, text=True)
     return r.returncode, r.stdout
+
+
+def benign_for(pid):
+    return [("patch", p, "benign/" + os.path.basename(p)) for p in sorted(glob.glob(os.path.join(VERIF, "controls", pid, "*.patch")))]
+
+
+def selftest(pid, verbose=False):
+    """-> list of (pid, name, status, detail); status in caught / MISSED / INCONCLUSIVE / PATCH-FAILED / silent / FALSE-ALARM"""
+    import fcntl
+    os.makedirs(S, exist_ok=True)
+    lock = open(S + ".lock", "w")
+    fcntl.flock(lock, fcntl.LOCK_EX)     # one self-test at a time: they share the scratch copy and its target dir
+    results = []
+    for kind, arg, name in mutants_for(pid) + benign_for(pid):
+        fresh_copy()
+        if kind == "patch":
+            r = sh("patch -p1 -s < %s" % arg, cwd=S + "/repo")
+        else:
+            r = sh("git -C /repo show %s | patch -R -p1 -s" % arg, cwd=S + "/repo")
+        if r.returncode != 0:
+            results.append((pid, name, "PATCH-FAILED", r.stdout.strip()[:200]))
+            continue
+        code, out = run_check(pid)
+        viol = [l for l in out.splitlines() if l.strip().startswith("violation:")]
+        if name.startswith("benign/"):
+            status = "silent" if code == 0 else ("FALSE-ALARM" if code == 1 else "INCONCLUSIVE")
+        else:
+            status = "caught" if code == 1 and "VIOLATION property=%s" % pid in out else ("INCONCLUSIVE" if code == 2 else "MISSED")
+        results.append((pid, name, status, (viol[0].strip()[:220] if viol else out.strip().splitlines()[-1][:220])))
+        if verbose:
+            print("%-4s %-60s %s\n      %s" % results[-1], flush=True)
+    shutil.rmtree(S + "/repo", ignore_errors=True)
+    fcntl.flock(lock, fcntl.LOCK_UN)
+    lock.close()
+    return results
 
 
 def mutants_for(pid):
@@ -58,25 +93,11 @@ def mutants_for(pid):
 def main():
     ids = [a.upper() for a in sys.argv[1:]]
     if not ids:
-        ids = sorted({os.path.basename(d) for d in glob.glob(os.path.join(VERIF, "mutants", "C*"))})
+        ids = sorted({os.path.basename(d) for d in glob.glob(os.path.join(VERIF, "mutants", "C*")) + glob.glob(os.path.join(VERIF, "controls", "C*"))})
     results = []
     for pid in ids:
-        for kind, arg, name in mutants_for(pid):
-            fresh_copy()
-            if kind == "patch":
-                r = sh("patch -p1 -s < %s" % arg, cwd=S + "/repo")
-            else:
-                r = sh("git -C /repo show %s | patch -R -p1 -s" % arg, cwd=S + "/repo")
-            if r.returncode != 0:
-                results.append((pid, name, "PATCH-FAILED", r.stdout.strip()[:200]))
-                continue
-            code, out = run_check(pid)
-            viol = [l for l in out.splitlines() if l.strip().startswith("violation:")]
-            status = "caught" if code == 1 and "VIOLATION property=%s" % pid in out else ("INCONCLUSIVE" if code == 2 else "MISSED")
-            results.append((pid, name, status, (viol[0].strip()[:220] if viol else out.strip().splitlines()[-1][:220])))
-            print("%-4s %-60s %s\n      %s" % results[-1], flush=True)
-    shutil.rmtree(S + "/repo", ignore_errors=True)
-    missed = [r for r in results if r[2] != "caught"]
+        results += selftest(pid, verbose=True)
+    missed = [r for r in results if r[2] not in ("caught", "silent")]
     print("\n%d mutants, %d caught, %d not caught" % (len(results), len(results) - len(missed), len(missed)))
     with open(os.path.join(S, "mutants_result.json"), "w") as fh:
         json.dump(results, fh, indent=1)
